@@ -55,6 +55,7 @@ func c08_15(c *core.Ctx, p *core.Prog) {
 			var bad []string
 			seen := map[ssa.Value]bool{}
 			var phis []*ssa.Phi
+			cellInc := false
 			var walk func(v ssa.Value)
 			walk = func(v ssa.Value) {
 				if seen[v] {
@@ -76,6 +77,25 @@ func c08_15(c *core.Ctx, p *core.Prog) {
 					}
 					bad = append(bad, fmt.Sprintf("%s: computed as %s", p.Pos(x.Pos()), x.String()))
 				case *ssa.UnOp:
+					// a field of a local struct (`res := newTracker(); … res.enter(key) …; res.id`): its definitions are the
+					// field stores in this function, the literal of the constructor the struct was made with, and the
+					// stores in the methods called on it (where a load of the same field is the counter itself)
+					if fa, ok := x.X.(*ssa.FieldAddr); ok && x.Op == token.MUL {
+						if al, ok := core.Strip(fa.X).(*ssa.Alloc); ok {
+							defs, inc, why := fieldCellDefs(al, fa.Field)
+							if why != "" {
+								bad = append(bad, fmt.Sprintf("%s: %s", p.Pos(x.Pos()), why))
+								return
+							}
+							if inc {
+								cellInc = true
+							}
+							for _, d := range defs {
+								walk(d)
+							}
+							return
+						}
+					}
 					// a local kept in a cell (captured by a closure): its stores
 					if al, ok := x.X.(*ssa.Alloc); ok && x.Op == token.MUL {
 						for _, r := range core.Referrers(al) {
@@ -95,7 +115,7 @@ func c08_15(c *core.Ctx, p *core.Prog) {
 				}
 			}
 			walk(id)
-			c.Check(len(bad) == 0 && len(phis) > 0, key, p.Pos(cl.Pos()), core.FuncName(fn),
+			c.Check(len(bad) == 0 && (len(phis) > 0 || cellInc), key, p.Pos(cl.Pos()), core.FuncName(fn),
 				"the id is a local counter advanced by one",
 				"the id handed to "+rn.Obj().Name()+".Append is not a local counter that only ever advances by one ("+strings.Join(bad, "; ")+"): its column is delta encoded with a maximum delta of 1, so a skipped number — e.g. an index that also counts resources or scopes without rows — makes the producer panic on valid input")
 		})
@@ -104,4 +124,123 @@ func c08_15(c *core.Ctx, p *core.Prog) {
 
 func init() {
 	register("C08", &core.Rule{ID: "C08.15", Title: "resource and scope ids come from a local counter advanced by one (their columns allow a delta of at most 1)", Mod: core.ModRoot, Floor: 6, Run: c08_15})
+}
+
+// fieldCellDefs: the values that field #field of the local struct al can be given, other than "itself plus one":
+// constants of the constructor literal, values stored in this function. inc reports that some definition is the
+// field itself plus one (here or in a method called on the struct). why is non-empty when a definition has another form.
+func fieldCellDefs(al *ssa.Alloc, field int) (defs []ssa.Value, inc bool, why string) {
+	isSelfPlusOne := func(v ssa.Value, self func(ssa.Value) bool) bool {
+		b, ok := v.(*ssa.BinOp)
+		if !ok || b.Op != token.ADD {
+			return false
+		}
+		one, isK := core.ConstInt(b.Y)
+		return isK && one == 1 && self(b.X)
+	}
+	selfHere := func(v ssa.Value) bool {
+		u, ok := v.(*ssa.UnOp)
+		if !ok || u.Op != token.MUL {
+			return false
+		}
+		fa, ok := u.X.(*ssa.FieldAddr)
+		return ok && fa.Field == field && core.Strip(fa.X) == ssa.Value(al)
+	}
+	for _, r := range core.Referrers(al) {
+		switch x := r.(type) {
+		case *ssa.FieldAddr:
+			if x.Field != field {
+				continue
+			}
+			for _, r2 := range core.Referrers(x) {
+				if st, ok := r2.(*ssa.Store); ok && st.Addr == ssa.Value(x) {
+					if isSelfPlusOne(st.Val, selfHere) {
+						inc = true
+					} else {
+						defs = append(defs, st.Val)
+					}
+				}
+			}
+		case *ssa.Store:
+			if x.Addr != ssa.Value(al) {
+				continue
+			}
+			// the whole struct: a constructor's literal
+			cl, ok := x.Val.(*ssa.Call)
+			if !ok || cl.Call.StaticCallee() == nil || len(cl.Call.StaticCallee().Blocks) == 0 {
+				if _, isC := x.Val.(*ssa.Const); isC {
+					continue // zero value
+				}
+				return nil, false, "the struct holding the counter is assigned as a whole from something other than a constructor"
+			}
+			h := cl.Call.StaticCallee()
+			for _, ret := range core.Returns(h) {
+				ld, ok := ret.Results[0].(*ssa.UnOp)
+				if !ok {
+					return nil, false, "the constructor " + h.Name() + " does not return a literal"
+				}
+				lit, ok := ld.X.(*ssa.Alloc)
+				if !ok {
+					return nil, false, "the constructor " + h.Name() + " does not return a literal"
+				}
+				for _, r2 := range core.Referrers(lit) {
+					if fa, ok := r2.(*ssa.FieldAddr); ok && fa.Field == field {
+						for _, r3 := range core.Referrers(fa) {
+							if st, ok := r3.(*ssa.Store); ok && st.Addr == ssa.Value(fa) {
+								if _, isC := st.Val.(*ssa.Const); !isC {
+									return nil, false, "the constructor " + h.Name() + " initialises the counter with a non-constant"
+								}
+								defs = append(defs, st.Val)
+							}
+						}
+					}
+				}
+			}
+		case ssa.CallInstruction:
+			// a method called on the struct: stores to the field through the parameter that stands for it
+			h := x.Common().StaticCallee()
+			if h == nil || len(h.Blocks) == 0 {
+				for _, a := range x.Common().Args {
+					if core.Strip(a) == ssa.Value(al) {
+						return nil, false, "the struct holding the counter is handed to a function that cannot be inspected"
+					}
+				}
+				continue
+			}
+			for k, a := range x.Common().Args {
+				if core.Strip(a) != ssa.Value(al) || k >= len(h.Params) {
+					continue
+				}
+				prm := h.Params[k]
+				selfThere := func(v ssa.Value) bool {
+					u, ok := v.(*ssa.UnOp)
+					if !ok || u.Op != token.MUL {
+						return false
+					}
+					fa, ok := u.X.(*ssa.FieldAddr)
+					return ok && fa.Field == field && fa.X == ssa.Value(prm)
+				}
+				bad := ""
+				core.EachInstr(h, func(i ssa.Instruction) {
+					st, ok := i.(*ssa.Store)
+					if !ok {
+						return
+					}
+					fa, ok := st.Addr.(*ssa.FieldAddr)
+					if !ok || fa.Field != field || fa.X != ssa.Value(prm) {
+						return
+					}
+					if isSelfPlusOne(st.Val, selfThere) {
+						inc = true
+					} else if _, isC := st.Val.(*ssa.Const); !isC {
+						bad = h.Name() + " assigns the counter something other than itself plus one"
+					}
+				})
+				if bad != "" {
+					return nil, false, bad
+				}
+			}
+		}
+	}
+	return defs, inc, ""
 }
